@@ -17,7 +17,7 @@ def main(tier: str, seed: int) -> int:
     shards += E.random_shards(PROP, run, JUDGES, profile="trivia", count=run.pick(25, 300), cap=run.pick(120, 300), maxlen=4, extra=extra)
     shards += E.random_shards(PROP, run, JUDGES, profile="stack", count=run.pick(25, 300), cap=run.pick(120, 300), maxlen=5, extra={"start_rules": "all", "positions": True})
     shards += E.matrix_shards(PROP, run, JUDGES, sample=run.pick(1600, 0), cap=run.pick(150, 400), extra={"positions": True})
-    hostile = {"push_empty": True, "trivia_refs": True, "trivia_explicit": True, "ci_nonascii": True, "zero_counts": True, "zero_width_stack_reps": True, "skipuntil_ci": True}
+    hostile = {"more_builtins": True, "push_empty": True, "trivia_refs": True, "trivia_explicit": True, "ci_nonascii": True, "zero_counts": True, "zero_width_stack_reps": True, "skipuntil_ci": True}
     shards += E.random_shards(PROP, run, JUDGES, profile="full", count=run.pick(25, 300), cap=run.pick(120, 300), maxlen=4, extra={**extra, "profile_overrides": hostile, "rename": True})
     for j in range(8):
         shards.append({"prop": PROP, "judges": JUDGES, "modes": ["I", "GI", "O", "GO"], "source": "stackscen", "seed": E.seed_int(PROP, run.seed, "sc", j), "count": run.pick(40, 500), "cap": run.pick(150, 400), "maxlen": 5, "sample_at": 10**9})
